@@ -257,12 +257,15 @@ func ZZ_C10_auth_assertion() {
 	target := []string{"c1", "c2", "c3", "zz"}[zz.Choice("target", 4)]
 	form := url.Values{"grant_type": {"client_credentials"}}
 	kind := zz.Choice("assertion", 4)
+	// the assertion's exp lies a symbolic number of seconds before or after now (the second itself is left open)
+	expOff := zz.Int("expoff", -3600, 3600)
+	zz.Assume(expOff != 0)
 	switch kind {
 	case 0: // well-formed assertion of the target client, signed with c3's registered key
 		form.Set("client_assertion_type", clientAssertionJWTBearerType)
 		form.Set("client_assertion", zzjwt.Sign(zzjwt.Spec{Alg: "RS256", Kid: "k1", Key: priv, Claims: map[string]interface{}{
 			"iss": target, "sub": target, "aud": "https://as.example/token", "jti": "jti-1",
-			"exp": time.Now().Add(time.Hour).Unix(),
+			"exp": time.Now().Unix() + expOff,
 		}}))
 	case 1: // type without assertion
 		form.Set("client_assertion_type", clientAssertionJWTBearerType)
@@ -292,9 +295,11 @@ func ZZ_C10_auth_assertion() {
 		zz.Cover("assertion:missing-assertion-rejected", kind == 1)
 		zz.Cover("assertion:unknown-type-rejected", kind == 2)
 		zz.Cover("assertion:malformed-rejected", kind == 3)
+		zz.Cover("assertion:expired-rejected", kind == 0 && target == "c3" && w.method == "private_key_jwt" && expOff < 0)
 		return
 	}
 	zz.Assert(kind == 0, "only a well-formed assertion authenticates when client_assertion_type is present")
+	zz.Assert(expOff > 0, "only an unexpired assertion authenticates")
 	zz.Assert(c == Client(w.c3) && target == "c3", "an assertion authenticates only the OpenID Connect client it names")
 	zz.Assert(w.method == "private_key_jwt", "an assertion authenticates only a client registered for private_key_jwt")
 	zz.Cover("assertion:private_key_jwt-accepted", true)
